@@ -42,6 +42,15 @@ class Orch:
                 issues.append({"aspect": "results-model" if side == "model" else "results-plan", "kind": kind,
                                "method": c.get("method"),
                                "detail": "impl results %s, %s says %s" % (json.dumps(obs.get("results")), side, json.dumps(s.get("results")))})
+        # the rule outcomes the orchestration model takes as input are measured on the real engine:
+        # they must be what the rule bodies say (a failing body fails, a quiet one does not)
+        for ru in c.get("rules") or []:
+            must_fail = ru.get("beh") in ("fail", "failret", "retafterfail", "straybreak", "straycont", "bigfail")
+            if ru.get("beh") in ("ret", "bare", "silent") or must_fail:
+                if bool(ru.get("fails")) != must_fail:
+                    issues.append({"aspect": "outcome", "kind": "impl-vs-spec", "method": c.get("method"),
+                                   "detail": "rule %s (body: %s) executed on its own %s" % (ru.get("name"), ru.get("beh"),
+                                             "reports no error" if must_fail else "reports an error")})
         # C11 proper: the map must hold exactly the rules that ran to completion in THIS call and returned
         if noc != "panic":
             rules = {r["name"]: r for r in (c.get("rules") or [])}
@@ -420,6 +429,10 @@ class PoolScn:
         if check_rules and got != sorted((r["name"], r["ver"]) for r in want):
             add("exec", kind, "request %s ran (rule, version) %s, %s says %s | err %s"
                 % (ex.get("id"), got, side, sorted((r["name"], r["ver"]) for r in want), (ex.get("err") or "")[:100]))
+        elif check_rules and not ex.get("err") and ex.get("runs") is not None and ex.get("runs") != len(want):
+            # every installed rule ran and returned, yet the number of rule executions differs: a rule ran twice
+            add("exec", kind, "request %s started %s rule executions, %s says the installed set has %s rules (each runs exactly once)"
+                % (ex.get("id"), ex.get("runs"), side, len(want)))
 
     @staticmethod
     def compare(c, o):
@@ -541,9 +554,9 @@ class PoolScn:
                 if ex.get("out") != ex.get("id") or ex.get("echo") != ex.get("id"):
                     add("iso", "impl-vs-spec", "request %s (%s): its own object holds out=%s echo=%s" % (ex.get("id"), ex.get("method"), ex.get("out"), ex.get("echo")))
             for pr in [c.get("probe") or {}] + (c.get("probes") or []):
-                if pr.get("method") == "selected-none":
+                if pr.get("method") in ("selected-none", "dag-empty", "dag-unknown"):
                     if pr.get("results"):
-                        add("leak", "impl-vs-spec", "request %s selected no existing rule and was handed the results %s" % (pr.get("id"), pr.get("results")))
+                        add("leak", "impl-vs-spec", "request %s (%s) named no existing rule and was handed the results %s" % (pr.get("id"), pr.get("method"), pr.get("results")))
                     continue
                 if pr.get("results") or not pr.get("err"):
                     add("leak", "impl-vs-spec", "request %s injected nothing and ran rules reading q: results %s err %r" % (pr.get("id"), pr.get("results"), pr.get("err")))
